@@ -1153,3 +1153,14 @@ MUTANTS += [
  dict(name='seed-C02-fp-inverse-kaliski-no-verdict', prop='C02', novd=True, expect='', patch='seeded/C02-fp-inverse-kaliski-short-iteration-count/patch.diff'),
  dict(name='seed-C15-secretkey-marshal-batched-inversion-no-verdict', prop='C15', novd=True, expect='', patch='seeded/C15-secretkey-marshal-batched-inversion-identity-slot/patch.diff'),
 ]
+# ---- restoring division of the 32-bit-word configurations
+MUTANTS += [
+ dict(name='c07-m0-restoring-division-strict-compare', prop='C07', expect='restoring step',
+      edits=[('include/core/bigint.hpp', 'if (top_bit == 1 || rem >= divisor) {', 'if (top_bit == 1 || rem > divisor) {')]),
+ dict(name='c07-m0-restoring-division-ignores-lost-top-bit', prop='C07', expect='restoring step',
+      edits=[('include/core/bigint.hpp', 'if (top_bit == 1 || rem >= divisor) {', 'if (rem >= divisor) {')]),
+ dict(name='c06-m0-restoring-division-bit-from-wrong-position', prop='C06', expect='restoring step',
+      edits=[('include/core/bigint.hpp', 'rem |= ((dividend_lower >> i) & 0x1);', 'rem |= ((dividend_lower >> (63 - i)) & 0x1);')]),
+ dict(name='c07-benign-m0-restoring-division-top-bit-nonzero-test', prop='C07', benign=True, expect='',
+      edits=[('include/core/bigint.hpp', 'if (top_bit == 1 || rem >= divisor) {', 'if (top_bit != 0 || rem >= divisor) {')]),
+]
